@@ -55,7 +55,7 @@ pub enum Op {
     Wait(u64),
     /// instruction level only: another instruction the global fee admin may send that is NOT one of the pause
     /// instructions — `edit_global_fee_state` (0: same admin, fee parameters changed; 1: the admin key handed over to
-    /// the admin's second key; 2: handed back). "Whatever the global fee admin does": the observed pause state is
+    /// the admin's second key; 2: handed back) and `config_group_fee` (3). "Whatever the global fee admin does": the observed pause state is
     /// judged by the same clauses. The pure system ignores it.
     Other(u8),
 }
